@@ -498,6 +498,19 @@ func init() {
 	}
 }
 
+// synPartners: the 1-document items every item of the synonym alphabet is merged with
+// (quick: one per shape class; thorough: all kinds).
+func synPartners(tier string) []int {
+	if tier == "quick" {
+		return []int{0, 1, 4, 6, 9, 15, 17, 19, 21}
+	}
+	var all []int
+	for k := 0; k < enum.NumSynDocKinds; k++ {
+		all = append(all, k)
+	}
+	return all
+}
+
 func synBounds(tier string) mergeBounds {
 	if tier == "quick" {
 		return mergeBounds{maxLen1: 3, triples: []int{0, 1, 3}, modes: []uint32{1026}, depth2: true, d2Menu: []int{1}, fullDrops: true}
@@ -509,7 +522,7 @@ func init() {
 	run.Register(&run.Def{
 		ID:          "C13",
 		Level:       "model_checking",
-		Rule:        "explicit-state exploration of the merge state space restricted to a synonym menu of 7 segment shapes (three-term thesauri; same synonyms with different internal ids in different inputs; a term defined in several segments; a thesaurus present in only one input; two definers of one term; a segment without synonyms; an empty batch), inputs in memory or re-opened; transitions = Merge(ordered list of <=3 states, EVERY drop vector incl. all definers of a term / all documents of a thesaurus deleted); distinct depth-1 states (canonical key from the reference model) are merged again at depth 2 (and 3 in thorough). Oracle in every state: for every (thesaurus, term, exclusion bitmap) the (synonym, doc) pairs == reference of the survivors under the new numbering, terms without survivors absent, ordinary dictionaries unaffected. Plus an 'alphabet' family that reuses C12's BUILD alphabet as merge inputs: every batch of 1 and of 2 documents over the 15 document kinds (240 segments) merged alone under every non-empty drop vector (in memory and re-opened) and merged with every 1-document batch on either side, nothing dropped / its first document dropped (quick: a third of these pairs). Non-trivial = merge with >= 1 survivor.",
+		Rule:        "explicit-state exploration of the merge state space restricted to a synonym menu of 7 segment shapes (three-term thesauri; same synonyms with different internal ids in different inputs; a term defined in several segments; a thesaurus present in only one input; two definers of one term; a segment without synonyms; an empty batch), inputs in memory or re-opened; transitions = Merge(ordered list of <=3 states, EVERY drop vector incl. all definers of a term / all documents of a thesaurus deleted); distinct depth-1 states (canonical key from the reference model) are merged again at depth 2 (and 3 in thorough). Oracle in every state: for every (thesaurus, term, exclusion bitmap) the (synonym, doc) pairs == reference of the survivors under the new numbering, terms without survivors absent, ordinary dictionaries unaffected. Plus an 'alphabet' family that reuses C12's BUILD alphabet as merge inputs: every batch of 1 and of 2 documents over the 22 document kinds (506 segments) merged alone under every non-empty drop vector (in memory and re-opened) and merged with 1-document batches on either side (quick: 9 partner kinds, one per shape class, and a third of the pairs; thorough: all), nothing dropped / its first document dropped. Non-trivial = merge with >= 1 survivor.",
 		Assumptions: batchAssumptions,
 		Bounds: map[string]string{
 			"quick":    "lists <=2 over 6 items + triples over 3 items, every drop vector, depth 2 with 1 item",
@@ -518,7 +531,7 @@ func init() {
 		New: func() interface{} { return &enum.MergeCase{} },
 		Gen: func(tier string, emit func(interface{})) {
 			genMerges("syn", synBounds(tier), func(c enum.MergeCase) { emit(c) })
-			genAlphabetMerges("synA", enum.NumSynDocKinds, tier, func(c enum.MergeCase) { emit(c) })
+			genAlphabetMerges("synA", synPartners(tier), tier, func(c enum.MergeCase) { emit(c) })
 		},
 		Run: runMerge("C13"),
 	})
@@ -626,7 +639,7 @@ func genColMerges(tier string, emit func(enum.MergeCase)) {
 // either side, with nothing dropped and with the item's first document dropped (quick: a
 // third of the 2-document items per partner), in memory and - for the single-input
 // merges - re-opened.
-func genAlphabetMerges(menuName string, kinds int, tier string, emit func(enum.MergeCase)) {
+func genAlphabetMerges(menuName string, partners []int, tier string, emit func(enum.MergeCase)) {
 	menu := enum.Menu(menuName)
 	for i, b := range menu {
 		n := len(b.Docs)
@@ -639,7 +652,7 @@ func genAlphabetMerges(menuName string, kinds int, tier string, emit func(enum.M
 					Drops: [][]int{append([]int{}, drops[0]...)}, DropOK: []bool{true}}})
 			})
 		}
-		for j := 0; j < kinds; j++ {
+		for _, j := range partners {
 			if tier == "quick" && n == 2 && (i+j)%3 != 0 {
 				continue
 			}
